@@ -524,6 +524,23 @@ CRoot(n, del) ==
   /\ n \in live /\ Same
   /\ Ans("croot", [n |-> n, del |-> del], CRootA(n, del).ret, <<>>, CRootA(n, del).t1)
 
+\* mpt::node_relation (mpt++/collection.cpp): a chain of relations along the
+\* parent links of n; find(key) answers the value of the first child of that
+\* name that has a value, looking at n first, then at each ancestor in turn
+RECURSIVE NRelH(_, _, _)
+NRelH(h, x, key) ==
+  IF x = 0 THEN 0
+  ELSE LET m == SelectSeq(Fwd(h, h.ch[x]), LAMBDA c : val[c] # 0 /\ name[c] = key)
+       IN IF m # <<>> THEN m[1] ELSE NRelH(h, h.pa[x], key)
+RECURSIVE NRel1(_, _, _)
+NRel1(f, x, key) ==
+  IF x = 0 THEN 0
+  ELSE LET m == SelectSeq(f.kids[x], LAMBDA c : val[c] # 0 /\ name[c] = key)
+       IN IF m # <<>> THEN m[1] ELSE NRel1(f, OwnerOf(f, x), key)
+NRelQ(n, key) ==
+  /\ n \in live /\ Same
+  /\ Ans("nrel", [n |-> n, key |-> key], NRelH(hp, n, key), <<>>, NRel1(fo, n, key))
+
 \* node::~node on a node created with node::create: unlinked, everything
 \* below released, then the node itself (C: mpt_node_unlink + mpt_node_destroy)
 Drop(n) ==
@@ -581,6 +598,7 @@ QueryInv2 ==
        /\ \A up \in Ups : SameLevelH(hp, n, up) = Same1(fo, n, up) /\ SubLevelH(hp, n, up) = Sub1(fo, n, up)
        /\ \A p \in Paths : PathA(n, p).ret = PathA(n, p).t1
        /\ \A del \in {0, 1} : CRootA(n, del).ret = CRootA(n, del).t1
+       /\ \A key \in Keys : NRelH(hp, n, key) = NRel1(fo, n, key)
   /\ \A s \in live, d \in live : CanMove(s, d) =>
        /\ MoveHN(name, hp, s, d, d, s) = MoveH(hp, s, d, d, s)
        /\ LET L == ListOf(fo, s) r == From(L, IndexOf(L, s)) IN MoveTN(name, fo, r, d) = MoveT(fo, r, d)
@@ -605,6 +623,7 @@ Fails2 ==
   \/ AFails
 ItemCalls == \/ \E n \in Ids, stop \in {0, 1} : Items(n, <<"a", "b", "c">>, stop)
              \/ \E n \in Ids, del \in {0, 1} : CRoot(n, del)
+             \/ \E n \in Ids, key \in Keys : NRelQ(n, key)
 Query2A ==
   \/ \E n \in Ids, ord \in Orders4, sel \in Sels, stop \in Stops : TravX(n, ord, sel, stop)
   \/ \E n \in Ids, up \in Ups : SameQ(n, up) \/ SubQ(n, up)
@@ -616,7 +635,7 @@ NextAll == Modify \/ Modify2 \/ Fails2 \/ Query2A
 
 ---------------------------------------------------------------------------
 (* action properties *)
-NewActs == {"items", "croot", "switch", "travx", "samelevel", "sublevel", "query", "assign", "assignfail", "setval",
+NewActs == {"items", "croot", "nrel", "switch", "travx", "samelevel", "sublevel", "query", "assign", "assignfail", "setval",
             "cfgset", "cfgdel", "parse", "drop", "teardown"}
 
 \* released exactly once: the released list is what left the handle table,
